@@ -357,6 +357,38 @@ def run(ctx):
             ok, err = False, repr(ex)[:160]
         if not ok:
             ctx.violation({'kind': 'views-of-a-result-with-float-oversample', 'oversample': str(ov)}, {'error': err}, case=None)
+    # the amplitude may be complex (a four-quadrant phase mask written as 1, 1j, -1, -1j): without an explicit mask the plane
+    # transmits where the amplitude is non-zero, and the field there is the amplitude times the phasor
+    for _ in range(8):
+        m_, n_ = rng.randint(3, 6), rng.randint(3, 6)
+        Ac = np.array([[rng.choice((0, 1, 1j, -1, -1j, 0.5 + 0.5j, 2j)) for _ in range(n_)] for _ in range(m_)], dtype=complex)
+        Ac[0, 0], Ac[-1, -1], Ac[0, -1] = 1j, -1j, 1.0
+        O_ = np.array([[rng.randrange(16) for _ in range(n_)] for _ in range(m_)]) * (1e-6 / 16)
+        for opd_ in (0.0, O_):
+            ctx.case(('complex-amplitude', m_, n_, np.ndim(opd_)))
+            try:
+                got_ = (lentil.Wavefront(1e-6) * lentil.Plane(amplitude=Ac, opd=opd_)).field
+                ok = got_.shape == Ac.shape and np.allclose(got_, Ac * np.exp(2j * np.pi * np.asarray(opd_) / 1e-6), rtol=1e-12, atol=1e-14)
+                err = None
+            except Exception as ex:
+                ok, err = False, repr(ex)[:160]
+            if not ok:
+                ctx.violation({'kind': 'complex-amplitude-not-transmitted-on-its-support', 'opd': 'scalar' if np.ndim(opd_) == 0 else 'array'}, {'shape': [m_, n_], 'error': err}, case=None)
+    # a tilt element that carries a pixel scale of its own is a plane like any other: inconsistent pixel scales are refused
+    wps = lentil.Wavefront(1e-6) * lentil.Pupil(amplitude=lentil.circle((8, 8), 3), pixelscale=1e-3, focal_length=1.0)
+    for mk, name in ((lambda px: lentil.Tilt(x=1e-6, y=0.0, pixelscale=px), 'Tilt'),
+                     (lambda px: lentil.DispersiveTilt(trace=[1., 0.], dispersion=[1e-3, 1e-6], pixelscale=px), 'DispersiveTilt')):
+        for px, conflict in ((1e-3, False), (2e-3, True), (1.001e-3, True), ((1e-3, 2e-3), True)):
+            ctx.case(('tilt-element-pixelscale', name, str(px)))
+            try:
+                r_ = wps * mk(px)
+                outcome = 'accepted'
+            except ValueError:
+                outcome = 'refused'
+            except Exception as ex:
+                outcome = type(ex).__name__
+            if outcome != ('refused' if conflict else 'accepted'):
+                ctx.violation({'kind': 'tilt-element-with-a-pixel-scale', 'class': name, 'conflict': conflict}, {'pixelscale': str(px), 'outcome': outcome}, case=None)
     # ... and the same for the FFT route with an explicit shape (an exactly sampled grid: 1 / alpha = 40 per oversampled sample)
     wfv = lentil.Wavefront(1e-6) * lentil.Pupil(amplitude=lentil.circle((16, 16), 6), pixelscale=1e-3, focal_length=1.0)
     ref3 = lentil.propagate_fft(wfv, pixelscale=50e-6, shape=(6, 7), oversample=2)
